@@ -152,6 +152,7 @@ inductive RelOut
   | skip                 -- candidate dropped (`continue`)
   | badpq                -- the pair (p, q) supplied for `try_factor64` does not multiply to the cofactor
   | rel (r : Rel)
+  deriving DecidableEq, Repr
 
 /-- Body of the `'smoothloop` of `sieve_block_poly` for the candidate `x`.
 `facs`: candidate factor-base primes reported by the sieve; `(lp, lq)`: what `cofactor` returns as the
@@ -282,7 +283,7 @@ def updateTree : Nat → CSet → Nat → Nat → Option CSet
           (qgt ++ qlt).foldlM (fun st q2 => updateTree fuel st q q2) s1
 
 /-- recursion depth bound used by the wrappers -/
-def treeFuel (s : CSet) : Nat := 2 * s.doubles.length + s.doublesRev.length + 4
+def treeFuel (s : CSet) : Nat := 2 * s.doubles.length + 2 * s.doublesRev.length + 4
 
 /-- second half of `add_path`: `if hasp { update_tree(p, q) }; if hasq { update_tree(q, p) }` -/
 def extendTree (s1 : CSet) (hasp hasq : Bool) (p q : Nat) : Option CSet :=
